@@ -70,10 +70,10 @@ def bounded(tier, seed):
     r2 = P.sweep(seed + 7919, n, [P.same_structure, P.generated_tokens_present, P.generated_code_verbatim], option_sets=sem, hazards=False, budget_s=20 if tier == "quick" else 600)
     ev = []
     from . import funcspecs as FS
-    ne = escape_word_sweep(ev) + punctuation_sweep(ev) + FS.bare_url_test(ev) + FS.link_destination_roundtrip(ev, 3 if tier == "quick" else 5) + FS.code_span_roundtrip(ev, 5 if tier == "quick" else 7) + FS.block_heuristics(ev)
+    ne = escape_word_sweep(ev) + punctuation_sweep(ev) + FS.bare_url_test(ev) + FS.link_destination_roundtrip(ev, 3 if tier == "quick" else 5) + FS.code_span_roundtrip(ev, 7 if tier == "quick" else 9) + FS.block_heuristics(ev)
     return {"evaluations": r1["evaluations"] + r2["evaluations"] + ne, "distinct_nontrivial": r1["distinct_nontrivial"] + r2["distinct_nontrivial"],
             "violations": r1["violations"] + r2["violations"] + ev, "samples": r1["samples"],
-            "rule": "(also: render_code_span(t) reads back as a code span with text t for every t of <= 5 (thorough 7) symbols over backtick / letter / blank; line_is_list_item etc. against the CommonMark rule) (also: _link_destination(d) inside [t](...) / ![t](...) / [t](... \"T\") reads back as destination d for every d of <= 3 (thorough: 5) symbols over ( ) < > space / _ a) (also: _is_unicode_punctuation == the GFM definition on every code point below U+3000) (also: markdown_escape_word on every word of <= 4 symbols over an 11-symbol alphabet against the CommonMark block-start "
+            "rule": "(also: render_code_span(t) reads back as a code span with text t for every t of <= 7 (thorough 9) symbols over backtick / letter / blank; line_is_list_item etc. against the CommonMark rule) (also: _link_destination(d) inside [t](...) / ![t](...) / [t](... \"T\") reads back as destination d for every d of <= 3 (thorough: 5) symbols over ( ) < > space / _ a) (also: _is_unicode_punctuation == the GFM definition on every code point below U+3000) (also: markdown_escape_word on every word of <= 4 symbols over an 11-symbol alphabet against the CommonMark block-start "
                     "rule) seeded documents from props/docspace.py x widths {88,20,8,4,1,0} fill mode (hazard words included) and "
                     "{88,20,8,0} semantic mode (no hazard words), cleanups/typography off, list_spacing=preserve: canonical tree of "
                     "input == canonical tree of output, every inline construct of the generator's lexicon occurs as often as before and every generated top-level code block / info string is there verbatim (independent of the parser); distinct = distinct outputs",
